@@ -104,8 +104,15 @@ fn gaussian2d_case<F: Fl + ndarray::NdFloat>(rep: &mut Report, case: u64, g: &mu
                 ref_un_p = u_p;
             }
         }
-        let t_n = tol(ref_norm, ref_norm_p, F::eps());
-        let t_u = tol(ref_un, ref_un_p, F::eps());
+        // plus the a-priori rounding bound of evaluating d^T P d with P = adj(cov)/det in F:
+        // relative error of det ~ eps (|ad|+|bc|)/|det|, of the sum ~ eps sum|P_ij d_i d_j|
+        let (pm, detv) = r.inv();
+        let dd = [x[0] - mean[0], x[1] - mean[1]];
+        let quad_abs = (pm[0][0] * dd[0] * dd[0]).abs() + 2.0 * (pm[0][1] * dd[0] * dd[1]).abs() + (pm[1][1] * dd[1] * dd[1]).abs();
+        let det_amp = ((cov[0][0] * cov[1][1]).abs() + (cov[0][1] * cov[1][0]).abs()) / detv.abs();
+        let apriori = 16.0 * F::eps() * quad_abs * (1.0 + det_amp);
+        let t_n = tol(ref_norm, ref_norm_p, F::eps()) + apriori + 8.0 * F::eps() * det_amp;
+        let t_u = tol(ref_un, ref_un_p, F::eps()) + apriori;
         rep.max("gaussian2d_error_over_tol", ((norm - ref_norm).abs() / t_n).max((unnorm - ref_un).abs() / t_u));
         let d = json!({"mean": mean, "cov": cov, "x": x, "normalized": norm, "ref_normalized": ref_norm, "unnorm": unnorm, "ref_unnorm": ref_un, "tol": [t_n, t_u]});
         if (norm - ref_norm).abs() > t_n {
@@ -154,6 +161,7 @@ fn check_target<T, B, G, R>(
     eps: f64,
     single: bool,
     batched: bool,
+    extra_tol: &dyn Fn(&[f64]) -> (f64, f64),
 ) -> bool
 where
     T: num_traits::Float + Element,
@@ -218,7 +226,8 @@ where
                 }
             }
         }
-        let tl = tol(rl, pl, eps);
+        let (extra_l, extra_g) = extra_tol(x);
+        let tl = tol(rl, pl, eps) + extra_l;
         let mut candidates: Vec<(&str, f64, &[f64])> = vec![];
         if let Some((lps, grs)) = &b {
             candidates.push(("batched", lps[r], &grs[r * d..(r + 1) * d]));
@@ -234,7 +243,7 @@ where
             }
             let gscale = rg.iter().map(|v| v.abs()).fold(0.0, f64::max);
             for k in 0..d {
-                let tg = 200.0 * (rg[k] - pg[k]).abs() + 256.0 * eps * gscale + 64.0 * eps;
+                let tg = 200.0 * (rg[k] - pg[k]).abs() + 256.0 * eps * gscale + 64.0 * eps + extra_g;
                 rep.max("gradient_error_over_tol", (gr[k] - rg[k]).abs() / tg);
                 if (gr[k] - rg[k]).abs() > tg {
                     rep.violation(&format!("{sig} {which} gradient"), mon, case,
@@ -272,7 +281,17 @@ where
     let pts: Vec<Vec<f64>> = (0..n).map(|_| vec![mean[0] + 3.0 * sd * g.normal(), mean[1] + 3.0 * sd * g.normal()]).collect();
     rep.distinct(("diffable", tname.to_string(), bname.to_string(), n, case));
     let sig = format!("DiffableGaussian2D<{tname}> on {bname}");
-    if check_target::<T, B, _, _>(rep, mon, case, g, &sig, &lib, &r, &rp, &pts, eps, true, true) {
+    // a-priori rounding bound of d^T P d and P d with P = adj(cov)/det quantised to f32
+    let (pm, detv) = r.inv();
+    let det_amp = ((cov[0][0] * cov[1][1]).abs() + (cov[0][1] * cov[1][0]).abs()) / detv.abs();
+    let extra = move |x: &[f64]| -> (f64, f64) {
+        let dd = [x[0] - mean[0], x[1] - mean[1]];
+        let quad_abs = (pm[0][0] * dd[0] * dd[0]).abs() + (pm[0][1] * dd[0] * dd[1]).abs() + (pm[1][0] * dd[0] * dd[1]).abs() + (pm[1][1] * dd[1] * dd[1]).abs();
+        let g0 = (pm[0][0] * dd[0]).abs() + (pm[0][1] * dd[1]).abs();
+        let g1 = (pm[1][0] * dd[0]).abs() + (pm[1][1] * dd[1]).abs();
+        (16.0 * eps * quad_abs * (1.0 + det_amp), 16.0 * eps * g0.max(g1) * (1.0 + det_amp))
+    };
+    if check_target::<T, B, _, _>(rep, mon, case, g, &sig, &lib, &r, &rp, &pts, eps, true, true, &extra) {
         rep.count("diffable_gaussian_cases");
         if case < 16 {
             rep.sample(json!({"monitor": mon, "target": sig, "mean": mean, "cov": cov, "batch": n, "first_point": pts[0], "ref_logp": r.logp(&pts[0]), "ref_grad": r.grad(&pts[0])}));
@@ -295,7 +314,8 @@ where
     let pts: Vec<Vec<f64>> = (0..n).map(|_| vec![g.uniform(-2.0, 2.0), g.uniform(-1.0, 3.0)]).collect();
     rep.distinct(("rosen", tname.to_string(), bname.to_string(), n, case));
     let sig = format!("Rosenbrock2D<{tname}> on {bname}");
-    if check_target::<T, B, _, _>(rep, mon, case, g, &sig, &lib, &r, &rp, &pts, eps, true, true) {
+    let extra = |_x: &[f64]| (0.0, 0.0);
+    if check_target::<T, B, _, _>(rep, mon, case, g, &sig, &lib, &r, &rp, &pts, eps, true, true, &extra) {
         rep.count("rosenbrock2d_cases");
     }
     // RosenbrockND: batched only
@@ -318,7 +338,7 @@ where
         }
     }
     let _ = NdOnly;
-    if check_target::<T, B, _, _>(rep, mon, case, g, &sig, &Wrap(RosenbrockND {}), &r, &r.clone(), &pts, eps, false, true) {
+    if check_target::<T, B, _, _>(rep, mon, case, g, &sig, &Wrap(RosenbrockND {}), &r, &r.clone(), &pts, eps, false, true, &|_x: &[f64]| (0.0, 0.0)) {
         rep.count("rosenbrock_nd_cases");
     }
 }
